@@ -74,7 +74,7 @@ def run(chk: Check, drv: Driver):
 
     graphcorr.run(chk, drv, 2000 if quick else 20000)
     found = []
-    for pr in kruns.enumerate_problems(chk, n_random=(80 if quick else 800), per_assignment=(12 if quick else 40)):
+    for pr in kruns.enumerate_problems(chk, n_random=(80 if quick else 400), per_assignment=(12 if quick else 24)):
         if pr.problem is None:
             continue
         q = qualifying_indexes(pr)
